@@ -1,71 +1,106 @@
----- MODULE HttpStream ----
-EXTENDS Naturals, Sequences, FiniteSets, TLC
-CONSTANTS Workers, Idents, Methods, TTL, MaxClock, CacheCap, MaxStreams,
-          FixMethodBinding,   \* intended: tokens are bound to the minting method
-          FixCacheExpiry      \* intended: a cache entry never outlives the call token it was built from
-VARIABLES clock, cache, nstreams, held, lastOutcome, lastCold, badMethod
-vars == <<clock, cache, nstreams, held, lastOutcome, lastCold, badMethod>>
-\* cache[w] : sequence (LRU order, oldest first) of [call, ident, expires]
-\* held[s]  : the two tokens the legitimate client of stream s holds
-Init == /\ clock = 0 /\ cache = [w \in Workers |-> <<>>] /\ nstreams = 0
-        /\ held = <<>> /\ lastOutcome = "none" /\ lastCold = "none" /\ badMethod = FALSE
+------------------------------------- MODULE HttpStream -------------------------------------
+(* Stateless HTTP streaming: signed cursor/call tokens, per-worker call-state cache, token TTL.
+   Follows vgi_rpc/http/server/_app_stream.py (_unpack_and_recover_state, _resolve_call_from_token, init) and
+   _state_token.py (_open_cursor_token, _open_call_token, _CallStateCache).
 
-Remove(seq, c, id) == SelectSeq(seq, LAMBDA e : ~(e.call = c /\ e.ident = id))
-Put(seq, e) == LET s1 == Append(Remove(seq, e.call, e.ident), e)
-               IN IF Len(s1) > CacheCap THEN SubSeq(s1, Len(s1) - CacheCap + 1, Len(s1)) ELSE s1
-Find(seq, c, id) == {i \in 1..Len(seq) : seq[i].call = c /\ seq[i].ident = id}
+   A stream is minted by Init on some worker for some identity and method: it gets a stream id, a call token
+   [sid, ident, meth, created] (never re-issued) and a first cursor token [sid, ident, meth, created].  Every
+   served continuation mints a fresh cursor (created = now).  Workers share the key; each has its own LRU cache
+   of (sid, ident) -> expiry.
+
+   A request Cont(w, ident, endpoint, cur, call) presents ANY minted cursor with ANY minted call token (or none,
+   call = NoTok) under any identity at any method's endpoint -- legitimate requests are the special case
+   Legit(req).  Order of checks as in the code:
+     1 cursor AEAD   cur.ident = ident            (+ cur.meth = endpoint when FixMethodBind)
+     2 cursor TTL    clock - cur.created <= TTL
+     3 cache         hit on (cur.sid, ident) with expiry > clock  => served, call token NOT consulted
+     4 miss          call present, call.ident = ident (+ call.meth = endpoint when FixMethodBind),
+                     clock - call.created <= TTL, call.sid = cur.sid; entry put with expiry
+                     (FixCacheExpiry: call.created + TTL | as found: clock + TTL)
+   Switches: TRUE = intended design (= the code after the fix commits), FALSE = the code as found.
+     FixCacheExpiry  cache entries expire with the call token that justifies them
+     FixMethodBind   both tokens are bound to the method that minted them
+     FixHitChecksCall (NOT implemented in the code; known finding) a hit still requires a matching call token  *)
+EXTENDS Naturals, Sequences, FiniteSets, TLC
+
+CONSTANTS Workers, Idents, Methods, TTL, MaxClock, CacheCaps, MaxStreams, MaxReq,
+          OnlyLegit,       \* generation aid: restrict continuations to legitimate requests (C14's quantifier)
+          FixCacheExpiry, FixMethodBind, FixHitChecksCall
+
+NoTok == [sid |-> 0, ident |-> "-", meth |-> "-", created |-> 0]
+VARIABLES clock, streams, cursors, cache, cap, nreq, last
+vars == <<clock, streams, cursors, cache, cap, nreq, last>>
+\* cap[w]: capacity of worker w's cache (chosen in Init from CacheCaps, constant afterwards)
+\* streams: set of call tokens (one per stream);  cursors: set of cursor tokens minted so far
+\* cache[w]: sequence of [sid, ident, exp], most recently used LAST
+
+NoLast == [kind |-> "none", legit |-> FALSE, served |-> FALSE, cold |-> FALSE, foreign |-> FALSE, hit |-> FALSE,
+           hitident |-> TRUE, paired |-> TRUE, req |-> <<>>]
+Init == /\ clock = 0 /\ streams = {} /\ cursors = {} /\ cache = [w \in Workers |-> <<>>] /\ nreq = 0 /\ last = NoLast
+        /\ cap \in [Workers -> CacheCaps]
+
+Fresh(tok) == clock - tok.created <= TTL
+Drop(seq, sid, ident) == SelectSeq(seq, LAMBDA e : ~(e.sid = sid /\ e.ident = ident))
+Put(seq, e, c) == LET s1 == Append(Drop(seq, e.sid, e.ident), e)
+                  IN IF c = 0 THEN <<>> ELSE IF Len(s1) > c THEN Tail(s1) ELSE s1
+Lookup(seq, sid, ident) == {i \in 1..Len(seq) : seq[i].sid = sid /\ seq[i].ident = ident}
 
 InitStream(w, id, m) ==
-  /\ nstreams < MaxStreams
-  /\ nstreams' = nstreams + 1
-  /\ LET c == nstreams + 1 IN
-     /\ held' = Append(held, [call |-> [call |-> c, ident |-> id, created |-> clock, meth |-> m],
-                              cursor |-> [call |-> c, ident |-> id, created |-> clock, meth |-> m],
-                              ident |-> id, meth |-> m])
-     /\ cache' = [cache EXCEPT ![w] = IF CacheCap = 0 THEN <<>> ELSE Put(@, [call |-> c, ident |-> id, expires |-> clock + TTL])]
-  /\ UNCHANGED <<clock, lastOutcome, lastCold, badMethod>>
+  /\ nreq < MaxReq /\ Cardinality(streams) < MaxStreams
+  /\ LET sid == Cardinality(streams) + 1
+         tok == [sid |-> sid, ident |-> id, meth |-> m, created |-> clock] IN
+     /\ streams' = streams \cup {tok} /\ cursors' = cursors \cup {tok}
+     /\ cache' = [cache EXCEPT ![w] = Put(@, [sid |-> sid, ident |-> id, exp |-> clock + TTL], cap[w])]
+  /\ nreq' = nreq + 1 /\ last' = [NoLast EXCEPT !.kind = "init", !.req = <<w, id, m>>] /\ UNCHANGED <<clock, cap>>
 
-Expired(tok) == clock - tok.created > TTL
-\* what a worker with an empty cache answers
-Cold(s, id, um) ==
-  LET h == held[s] IN
-  IF h.cursor.ident # id \/ Expired(h.cursor) THEN "reject"
-  ELSE IF h.call.ident # id \/ Expired(h.call) \/ h.call.call # h.cursor.call THEN "reject"
-  ELSE IF FixMethodBinding /\ h.call.meth # um THEN "reject"
-  ELSE "serve"
+MethOK(tok, ep) == FixMethodBind => tok.meth = ep
+\* what a worker whose cache is empty answers (pure function of the request and the clock)
+ColdServes(id, ep, cur, call) ==
+  /\ cur.ident = id /\ MethOK(cur, ep) /\ Fresh(cur)
+  /\ call # NoTok /\ call.ident = id /\ MethOK(call, ep) /\ Fresh(call) /\ call.sid = cur.sid
+Legit(id, ep, cur, call) == cur.ident = id /\ cur.meth = ep /\ call \in streams /\ call.sid = cur.sid
 
-Continue(w, s, id, um) ==
-  /\ s \in 1..Len(held)
-  /\ LET h == held[s]
-         hit == {i \in Find(cache[w], h.cursor.call, id) : cache[w][i].expires > clock}
-         cursorOk == h.cursor.ident = id /\ ~Expired(h.cursor)
-         callOk == h.call.ident = id /\ ~Expired(h.call) /\ h.call.call = h.cursor.call
-         methOk == ~FixMethodBinding \/ h.call.meth = um
-         served == cursorOk /\ methOk /\ (hit # {} \/ callOk)
-     IN
-     /\ lastCold' = Cold(s, id, um)
-     /\ lastOutcome' = IF served THEN "serve" ELSE "reject"
-     /\ badMethod' = (badMethod \/ (served /\ h.meth # um))
-     /\ IF ~cursorOk THEN UNCHANGED <<cache, held>>
-        ELSE /\ cache' = [cache EXCEPT ![w] =
-                  IF CacheCap = 0 THEN <<>>
-                  ELSE IF hit # {} THEN Put(@, @[CHOOSE i \in hit : TRUE])            \* move to end
-                  ELSE IF callOk /\ methOk
-                       THEN Put(Remove(@, h.cursor.call, id),
-                                [call |-> h.cursor.call, ident |-> id,
-                                 expires |-> IF FixCacheExpiry THEN h.call.created + TTL ELSE clock + TTL])
-                       ELSE Remove(@, h.cursor.call, id)]
-             /\ held' = IF served THEN [held EXCEPT ![s].cursor = [@ EXCEPT !.created = clock]] ELSE held
-  /\ UNCHANGED <<clock, nstreams>>
+Cont(w, id, ep, cur, call) ==
+  /\ nreq < MaxReq
+  /\ (OnlyLegit => Legit(id, ep, cur, call))
+  /\ LET aead == cur.ident = id /\ MethOK(cur, ep)
+         live == Lookup(cache[w], cur.sid, id)
+         hit == aead /\ Fresh(cur) /\ live # {} /\ (\E i \in live : cache[w][i].exp > clock)
+                /\ (FixHitChecksCall => (call # NoTok /\ call.ident = id /\ call.sid = cur.sid /\ MethOK(call, ep)))
+         expired == aead /\ Fresh(cur) /\ live # {} /\ ~(\E i \in live : cache[w][i].exp > clock)
+         miss == aead /\ Fresh(cur) /\ ~hit
+         missok == miss /\ call # NoTok /\ call.ident = id /\ MethOK(call, ep) /\ Fresh(call) /\ call.sid = cur.sid
+         served == hit \/ missok
+         base == IF expired \/ miss THEN Drop(cache[w], cur.sid, id) ELSE cache[w]
+         newexp == IF FixCacheExpiry THEN call.created + TTL ELSE clock + TTL
+     IN /\ cache' = [cache EXCEPT ![w] =
+                       IF hit THEN Put(@, cache[w][CHOOSE i \in live : cache[w][i].exp > clock], cap[w])   \* move_to_end, same expiry
+                       ELSE IF missok THEN Put(base, [sid |-> cur.sid, ident |-> id, exp |-> newexp], cap[w])
+                       ELSE IF expired THEN base ELSE @]
+        /\ cursors' = IF served THEN cursors \cup {[cur EXCEPT !.created = clock]} ELSE cursors
+        /\ last' = [kind |-> "cont", legit |-> Legit(id, ep, cur, call), served |-> served,
+                    cold |-> ColdServes(id, ep, cur, call), foreign |-> served /\ cur.meth # ep, hit |-> hit,
+                    hitident |-> (hit => cur.ident = id),
+                    paired |-> (served => (call # NoTok /\ call.sid = cur.sid /\ call.ident = id)),
+                    req |-> <<w, id, ep, cur, call>>]
+  /\ nreq' = nreq + 1 /\ UNCHANGED <<clock, streams, cap>>
 
-Tick == /\ clock < MaxClock /\ clock' = clock + 1 /\ UNCHANGED <<cache, nstreams, held, lastOutcome, lastCold, badMethod>>
+Tick == /\ clock < MaxClock /\ clock' = clock + 1 /\ last' = NoLast /\ UNCHANGED <<streams, cursors, cache, cap, nreq>>
 
 Next == \/ \E w \in Workers, id \in Idents, m \in Methods : InitStream(w, id, m)
-        \/ \E w \in Workers, s \in 1..MaxStreams, id \in Idents, um \in Methods : Continue(w, s, id, um)
+        \/ \E w \in Workers, id \in Idents, ep \in Methods, cur \in cursors, call \in streams \cup {NoTok} :
+              Cont(w, id, ep, cur, call)
         \/ Tick
 Spec == Init /\ [][Next]_vars
-CacheTransparent == lastOutcome = lastCold
-MethodBound == ~badMethod
-DepthBound == TLCGet("level") <= 12
-Symm == Permutations(Workers)
-====
+
+\* ------------------------------------------------------------------ clauses
+\* C14: for legitimate requests the cache never changes the outcome; a hit never crosses identities
+CacheTransparent == (last.kind = "cont" /\ last.legit) => last.served = last.cold
+HitSameIdentity == last.hitident
+\* C13: a method never processes state another method's initialization produced
+MethodBound == ~last.foreign
+\* C12 (state-machine part): served only with tokens of the same stream, identity, within TTL
+ServedOnlyGenuinePair == last.served => last.paired
+ServedImpliesColdOK == (last.kind = "cont" /\ FixHitChecksCall) => (last.served => last.cold)
+TypeOK == clock \in 0..MaxClock /\ nreq \in 0..MaxReq
+==============================================================================================
